@@ -135,12 +135,62 @@ pub fn thread_cpu_ms(tid: u32) -> u64 {
     ticks * 10
 }
 
+extern "C" {
+    fn _exit(status: i32) -> !;
+}
+
+/// Ends the process at once, without running exit handlers. Used after a run was abandoned with
+/// threads still blocked inside the cache: the cache they hold was deliberately leaked, and a leak
+/// checker running at exit would report the harness' own leak as a finding.
+pub fn exit_now(status: i32) -> ! {
+    use std::io::Write;
+    let _ = std::io::stdout().flush();
+    unsafe { _exit(status) }
+}
+
+/// (state letter, cpu ticks, context switches) of one thread of this process; None once it has exited.
+pub fn thread_activity(tid: u32) -> Option<(char, u64, u64)> {
+    let stat = std::fs::read_to_string(format!("/proc/self/task/{}/stat", tid)).ok()?;
+    let rest = &stat[stat.rfind(')')? + 1..];
+    let f: Vec<&str> = rest.split_whitespace().collect();
+    let state = f.first()?.chars().next()?;
+    let ticks: u64 = f.get(11).and_then(|x| x.parse().ok()).unwrap_or(0) + f.get(12).and_then(|x| x.parse().ok()).unwrap_or(0);
+    let mut switches = 0u64;
+    if let Ok(st) = std::fs::read_to_string(format!("/proc/self/task/{}/status", tid)) {
+        for l in st.lines() {
+            if l.starts_with("voluntary_ctxt_switches") || l.starts_with("nonvoluntary_ctxt_switches") {
+                switches += l.split_whitespace().nth(1).and_then(|x| x.parse().ok()).unwrap_or(0);
+            }
+        }
+    }
+    Some((state, ticks, switches))
+}
+
+/// One line per watched thread: state, kernel wait channel and current system call (diagnostics
+/// attached to a deadlock verdict).
+pub fn thread_diagnostics(tids: &[u32]) -> String {
+    let mut out = Vec::new();
+    for t in tids {
+        if let Some((st, ticks, sw)) = thread_activity(*t) {
+            let wchan = std::fs::read_to_string(format!("/proc/self/task/{}/wchan", t)).unwrap_or_default();
+            let sc = std::fs::read_to_string(format!("/proc/self/task/{}/syscall", t)).unwrap_or_default();
+            out.push(format!("tid {} state {} cpu-ticks {} switches {} wchan {} syscall {}", t, st, ticks, sw, wchan.trim(), sc.split_whitespace().next().unwrap_or("?")));
+        }
+    }
+    out.join("; ")
+}
+
 /// Deadlock criterion that does not depend on how loaded the machine is: the work is not
-/// finished, yet the whole process has consumed (almost) no CPU time for `window`: every thread
-/// is blocked, and nobody is left to unblock them.
+/// finished, yet for the whole window every watched thread that still exists was seen *blocked*
+/// (kernel state S or D, never R: a thread that is merely starved of CPU is runnable), and together
+/// they consumed no more than 20 ms of CPU (timed waits that wake up and park again cost microseconds;
+/// a thread that sleeps and works in a loop accumulates more): every thread is blocked for good, and nobody is left to unblock them. The verdict needs at least
+/// five such observations per second of the window, so a watcher that was itself starved decides nothing.
 pub struct IdleWatch {
-    last_cpu: u64,
+    last_sig: (u64, u64),
     since: std::time::Instant,
+    last_sample: std::time::Instant,
+    samples: u64,
     window: std::time::Duration,
     /// the worker threads to watch (the watching thread's own polling must not count as progress);
     /// empty: the whole process
@@ -149,27 +199,53 @@ pub struct IdleWatch {
 
 impl IdleWatch {
     pub fn new(window_secs: u64) -> IdleWatch {
-        IdleWatch { last_cpu: process_cpu_ms(), since: std::time::Instant::now(), window: std::time::Duration::from_secs(window_secs), tids: Default::default() }
+        Self::for_threads(window_secs, Default::default())
     }
     pub fn for_threads(window_secs: u64, tids: std::sync::Arc<std::sync::Mutex<Vec<u32>>>) -> IdleWatch {
-        IdleWatch { last_cpu: 0, since: std::time::Instant::now(), window: std::time::Duration::from_secs(window_secs), tids }
+        let now = std::time::Instant::now();
+        IdleWatch { last_sig: (0, 0), since: now, last_sample: now, samples: 0, window: std::time::Duration::from_secs(window_secs), tids }
     }
-    fn cpu(&self) -> u64 {
-        let t = self.tids.lock().map(|t| t.clone()).unwrap_or_default();
+    pub fn watched(&self) -> Vec<u32> {
+        self.tids.lock().map(|t| t.clone()).unwrap_or_default()
+    }
+    /// (all blocked?, (cpu, switches))
+    fn observe(&self) -> (bool, (u64, u64)) {
+        let t = self.watched();
         if t.is_empty() {
-            process_cpu_ms()
-        } else {
-            t.iter().map(|x| thread_cpu_ms(*x)).sum()
+            return (true, (process_cpu_ms(), 0));
         }
+        let mut blocked = true;
+        let mut cpu = 0u64;
+        let mut sw = 0u64;
+        for x in t {
+            if let Some((st, ticks, switches)) = thread_activity(x) {
+                if st != 'S' && st != 'D' {
+                    blocked = false;
+                }
+                cpu += ticks;
+                sw += switches;
+            }
+        }
+        (blocked, (cpu, sw))
     }
-    /// Call periodically while waiting. Returns true when the watched threads have been idle for the window.
+    /// Call periodically while waiting. Returns true when the watched threads have been blocked for the window.
     pub fn idle(&mut self) -> bool {
-        let cpu = self.cpu();
-        if cpu > self.last_cpu + 20 {
-            self.last_cpu = cpu;
-            self.since = std::time::Instant::now();
+        let now = std::time::Instant::now();
+        if now.duration_since(self.last_sample) < std::time::Duration::from_millis(100) && self.samples > 0 {
             return false;
         }
-        self.since.elapsed() > self.window
+        let (blocked, sig) = self.observe();
+        // threads parked in timed waits wake up now and then (context switches, a few microseconds of
+        // CPU): progress means more than 2 ticks (20 ms) of CPU since the window began
+        if !blocked || sig.0 > self.last_sig.0 + 2 || sig.0 < self.last_sig.0 {
+            self.last_sig = sig;
+            self.since = now;
+            self.samples = 0;
+            self.last_sample = now;
+            return false;
+        }
+        self.samples += 1;
+        self.last_sample = now;
+        self.since.elapsed() > self.window && self.samples >= self.window.as_secs() * 5
     }
 }
